@@ -34,6 +34,10 @@ def _format(obj, format_spec=""):
     with NoTracing():
         if _is_sym(obj) and not isinstance(obj, _bl.AnySymbolicStr):
             return "<sym>"
+        # a concrete tuple / list holding a symbolic non-string (an identifier tuple formatted into an error message)
+        if type(obj) in (tuple, list) and len(obj) <= 8 and isinstance(format_spec, str) and format_spec == "":
+            if any(_is_sym(x) and not isinstance(x, _bl.AnySymbolicStr) for x in obj):
+                return "<seq with sym>"
         # a plain user object without __format__ of its own: format() is str(); CrossHair would deep-copy and realise
         # everything reachable from it first (e.g. a reader object that holds the symbolic selector)
         t = type(obj)
